@@ -113,6 +113,17 @@ LITERAL = [
     "Select(Select(ds, lambda {A}: {A}.o_p), lambda {B}: {B})",
 ]
 
+DEEP = [
+    # a fusion nested inside an outer lambda leaves a substituted value that mentions the outer variable; an intermediate lambda level
+    # follows; the innermost lambda may re-use the outer variable's name
+    "Select(ds, lambda {A}: Select(Select({A}.so_jets, lambda {B}: ({B}, {A}.i_pt)), lambda {C}: Select({C}[0].so_trk, lambda {P}: Count(Where({P}.so_jets, lambda {Q}: {Q}.i_pt > {C}[1])))))",
+    "Select(ds, lambda {A}: Select(Select({A}.so_jets, lambda {B}: ({B}, {A}.i_pt)), lambda {C}: Select({C}[0].so_trk, lambda {P}: Select({P}.si_hits, lambda {Q}: {Q} + {C}[1]))))",
+    "Select(ds, lambda {A}: Where(Select({A}.so_jets, lambda {B}: {{'j': {B}, 'm': {A}.i_eta}}), lambda {C}: Count(Where({C}.j.so_trk, lambda {P}: Count(Where({P}.si_hits, lambda {Q}: {Q} > {C}['m'])) > 0)) > 0))",
+    "Select(ds, lambda {A}: (lambda {C}: Select({C}[0], lambda {P}: Select({P}.so_trk, lambda {Q}: {Q}.i_pt + {C}[1])))(({A}.so_jets, {A}.i_pt)))",
+    "SelectMany(ds, lambda {A}: SelectMany(Select({A}.so_jets, lambda {B}: ({B}.so_trk, {A}.i_pt)), lambda {C}: Select({C}[0], lambda {P}: Count(Where({P}.si_hits, lambda {Q}: {Q} > {C}[1])))))",
+    "Select(ds, lambda {A}: First(Select(Select({A}.so_jets, lambda {B}: ({B}, {A}.o_p)), lambda {C}: Select({C}[0].so_trk, lambda {P}: First(Select({P}.so_jets, lambda {Q}: {Q}.i_pt + {C}[1].i_pt))))))",
+]
+
 THREE = [
     "Select(Where(SelectMany(ds, lambda {A}: {A}.so_jets), lambda {B}: {B}.i_pt > 1), lambda {C}: {C}.i_eta)",
     "Where(Select(SelectMany(ds, lambda {A}: {A}.so_jets), lambda {B}: ({B}.i_pt, {B}.o_p)), lambda {C}: {C}[0] > 5)",
@@ -123,7 +134,7 @@ THREE = [
     "SelectMany(Select(Where(ds, lambda {A}: {A}.i_pt > 0), lambda {B}: {B}.so_jets), lambda {C}: Where({C}, lambda {B}: {B}.i_pt > Count({C})))",
 ]
 
-ALL = {"pairs": PAIRS, "called": CALLED, "first": FIRST, "literal": LITERAL, "three": THREE}
+ALL = {"pairs": PAIRS, "called": CALLED, "first": FIRST, "literal": LITERAL, "three": THREE, "deep": DEEP}
 PLACEHOLDERS = ["A", "B", "C", "P", "Q"]
 
 
